@@ -13,6 +13,9 @@
 #include "leaf_ext.hpp"
 #include "hexio.hpp"
 #include <cstring>
+#include <map>
+#include <sstream>
+#include <memory>
 #include <algorithm>
 
 using namespace ftp;
@@ -173,10 +176,61 @@ static std::string run_frame(const std::vector<std::string> & f)
     return out + " | left=" + hex(left);
 }
 
+// ---- one notification round of ftp::client with observers that unregister observers when they are told
+struct round_observer : ftp::observer
+{
+    int id; ftp::client *cl; std::vector<int> *told;
+    std::vector<std::shared_ptr<round_observer>> gone;     // whom this observer unregisters when it is told
+    void on_connected(std::string_view, std::uint16_t) override {}
+    void on_request(std::string_view) override
+    {
+        told->push_back(id);
+        for (auto & o : gone) cl->remove_observer(o);
+    }
+    void on_reply(const ftp::reply &) override {}
+    void on_file_list(std::string_view) override {}
+};
+
+static std::string run_obsround(const std::vector<std::string> & f)
+{
+    // obsround <registered ids, in order | -> <o:a.b;o2:c | ->
+    std::vector<size_t> live = ints_of(f.at(1));
+    std::map<int, std::vector<int>> react;
+    if (f.at(2) != "-")
+    {
+        std::stringstream ss(f.at(2)); std::string e;
+        while (std::getline(ss, e, ';'))
+        {
+            size_t c = e.find(':');
+            int o = std::stoi(e.substr(0, c));
+            std::stringstream ls(e.substr(c + 1)); std::string x;
+            while (std::getline(ls, x, '.')) react[o].push_back(std::stoi(x));
+        }
+    }
+    ftp::client cl;
+    std::vector<int> told;
+    std::map<int, std::shared_ptr<round_observer>> obs;
+    auto get = [&](int id) {
+        if (!obs.count(id)) { auto o = std::make_shared<round_observer>(); o->id = id; o->cl = &cl; o->told = &told; obs[id] = o; }
+        return obs[id];
+    };
+    for (size_t id : live) get((int)id);
+    for (auto & kv : react) for (int g : kv.second) get(kv.first)->gone.push_back(get(g));
+    for (size_t id : live) cl.add_observer(get((int)id));
+    cl.notify_request("X");
+    auto show = [](const std::vector<int> & v) { std::string s; for (int x : v) { if (!s.empty()) s += ","; s += std::to_string(x); } return s.empty() ? std::string("-") : s; };
+    std::vector<int> left;
+    for (auto & o : cl.observers_) left.push_back(static_cast<round_observer *>(o.get())->id);
+    std::string out = "told=" + show(told) + " live=" + show(left);
+    for (auto & kv : obs) kv.second->gone.clear();       // break the reference cycles
+    return out;
+}
+
 std::string leaf_ext_run(const std::vector<std::string> & f)
 {
     const std::string & k = f.at(0);
     if (k == "frame") return run_frame(f);
+    if (k == "obsround") return run_obsround(f);
     if (k == "wfcheck") return "ok";
     if (k == "parse" || k == "parse_rt")
     {
